@@ -4,6 +4,7 @@
 package vos
 
 import (
+	"fmt"
 	"io"
 	"io/fs"
 	"os"
@@ -58,10 +59,14 @@ type Op struct {
 type Plan struct {
 	mu      sync.Mutex
 	Log     []Op
-	CrashAt int // freeze before the k-th mutating op (1-based); 0 = never
+	KeepLog bool
+	CrashAt int // freeze the disk before the k-th mutating op (1-based); 0 = never
+	FailAt  int // the k-th op (1-based, mutating or not) fails once with EIO; 0 = never
 	Frozen  bool
-	nMut    int
-	Budget  int // max ops; 0 = unlimited
+	NMut    int // mutating ops seen so far
+	NOps    int // ops seen so far
+	Budget  int // max ops since the last ResetBudget; 0 = unlimited
+	since   int
 }
 
 var current *Plan
@@ -70,9 +75,18 @@ var planMu sync.Mutex
 func SetPlan(p *Plan) { planMu.Lock(); current = p; planMu.Unlock() }
 func getPlan() *Plan  { planMu.Lock(); defer planMu.Unlock(); return current }
 
+// ResetBudget starts a new budget window (call before each API call under test).
+func (p *Plan) ResetBudget() { p.mu.Lock(); p.since = 0; p.mu.Unlock() }
+
+// BudgetExceeded is the panic value raised when one API call issues more
+// file-system operations than the plan allows: the wall-clock-free livelock verdict.
 type BudgetExceeded struct{ N int }
 
-// hook returns a non-nil error when the disk is frozen (crash mode).
+func (b BudgetExceeded) Error() string {
+	return fmt.Sprintf("vos: operation budget exceeded (%d file-system operations inside one call)", b.N)
+}
+
+// hook returns a non-nil error when the disk is frozen (crash mode) or the op is chosen to fail.
 func hook(kind, path, path2 string, mutating bool) error {
 	vs.Pt("fs:" + kind)
 	p := getPlan()
@@ -81,19 +95,26 @@ func hook(kind, path, path2 string, mutating bool) error {
 	}
 	p.mu.Lock()
 	defer p.mu.Unlock()
-	if p.Budget > 0 && len(p.Log) >= p.Budget {
-		panic(BudgetExceeded{len(p.Log)})
+	p.since++
+	if p.Budget > 0 && p.since > p.Budget {
+		panic(BudgetExceeded{p.since})
 	}
+	p.NOps++
 	if mutating && !p.Frozen {
-		p.nMut++
-		if p.CrashAt > 0 && p.nMut == p.CrashAt {
+		p.NMut++
+		if p.CrashAt > 0 && p.NMut == p.CrashAt {
 			p.Frozen = true
 		}
 	}
 	if p.Frozen {
 		return &os.PathError{Op: kind, Path: path, Err: syscall.EIO}
 	}
-	p.Log = append(p.Log, Op{kind, path, path2, mutating})
+	if p.FailAt > 0 && p.NOps == p.FailAt {
+		return &os.PathError{Op: kind, Path: path, Err: syscall.EIO}
+	}
+	if p.KeepLog {
+		p.Log = append(p.Log, Op{kind, path, path2, mutating})
+	}
 	return nil
 }
 
